@@ -2,3 +2,6 @@
    a task whose KILL call failed is put back into the roster; the loop then carries on with the other tasks *)
 Definition dokill_puts_back : bool := true.
 Definition dokill_carries_on : bool := true.
+(* from its first KILL call on, the kill routine never stores a whole roster it did not read at that moment
+   (a list kept in a local across the KILL calls would erase what other requests wrote meanwhile) *)
+Definition dokill_writes_fresh : bool := true.
